@@ -35,7 +35,7 @@ import requests
 from PIL import Image, UnidentifiedImageError
 
 from .. import get_cell_ratio
-from .._ctlseqs import CURSOR_DOWN, CURSOR_UP, HIDE_CURSOR, SGR_DEFAULT, SHOW_CURSOR
+from .._ctlseqs import HIDE_CURSOR, SGR_DEFAULT, SHOW_CURSOR, cursor_down, cursor_up
 from ..exceptions import (
     InvalidSizeError,
     RenderError,
@@ -1331,11 +1331,13 @@ class BaseImage(metaclass=ImageMeta):
         image_it = ImageIterator(self, repeat, "", cached)
         image_it.close()  # Closes the image it opened; *img* is used instead
         image_it._animator = image_it._animate(img, alpha, fmt, style_args)
-        cursor_up = CURSOR_UP % (lines - 1)
-        cursor_down = CURSOR_DOWN % lines
+        # After every frame, the cursor is moved back to the beginning of the first
+        # line (NOTE: `CSI 0 A` would move the cursor up by one line).
+        cursor_to_top = "\r" + cursor_up(lines - 1)
 
         try:
-            print(next(image_it._animator), end="", flush=True)  # First frame
+            # First frame
+            print(next(image_it._animator), cursor_to_top, sep="", end="", flush=True)
 
             # Render next frame during current frame's duration
             start = time.time()
@@ -1343,11 +1345,10 @@ class BaseImage(metaclass=ImageMeta):
                 # Left-over of current frame's duration
                 time.sleep(max(0, duration - (time.time() - start)))
 
-                # Clear the current frame, if necessary,
-                # move cursor up to the beginning of the first line of the image
-                # and print the new current frame.
+                # Clear the current frame, if necessary, print the new current frame
+                # and move cursor up to the beginning of the first line of the image.
                 self._clear_frame()
-                print("\r", cursor_up, frame, sep="", end="", flush=True)
+                print(frame, cursor_to_top, sep="", end="", flush=True)
 
                 # Render next frame during current frame's duration
                 start = time.time()
@@ -1360,9 +1361,9 @@ class BaseImage(metaclass=ImageMeta):
             image_it.close()
             self._close_image(img)
             self._seek_position = prev_seek_pos
-            # Move the cursor to the last line of the image to prevent "overlaid"
-            # output in the terminal
-            print(cursor_down, end="")
+            # Move the cursor (from the first line) to the last line of the image to
+            # prevent "overlaid" output in the terminal
+            print(cursor_down(lines - 1), end="")
 
     def _format_render(
         self,
